@@ -518,7 +518,7 @@ fn run(args: &Args) {
     for c in pair_cases(args.thorough) {
         one(&mut out, &kernels, &c);
     }
-    let n = if args.thorough { 30_000 } else { 2_500 };
+    let n = if args.thorough { 20_000 } else { 2_500 };
     for _ in 0..n {
         let c = random_case(&mut rng);
         one(&mut out, &kernels, &c);
